@@ -7,7 +7,7 @@
 (* rest of the trace is still examined.  The trace is accepted iff no      *)
 (* MISMATCH line was printed and every line was consumed (postcondition).  *)
 (***************************************************************************)
-EXTENDS UintFloat, Json, IOUtils, TLC
+EXTENDS Codecs, Json, IOUtils, TLC
 
 Rec == ndJsonDeserialize(IOEnv.TRACE)
 
@@ -23,9 +23,10 @@ Check(e) ==
          [] e.g = "kern"  -> CheckKern(e)
          [] e.g = "text"  -> CheckText(e)
          [] e.g = "float" -> CheckFloat(e)
+         [] e.g = "codec" -> CheckCodec(e)
          [] OTHER -> [unknown_group |-> FALSE]
 
-Fails(c) == {f \in DOMAIN c : ~c[f]}
+Fails(c) == LET cc == c IN {f \in DOMAIN cc : ~cc[f]}
 
 TraceInit == l = 1
 TraceNext ==
